@@ -131,3 +131,15 @@ pub unsafe fn m256_permute2f128_ps<const IMM8: i32>(a: __m256, b_: __m256) -> __
     let lo = sel(IMM8 & 0xF); let hi = sel((IMM8 >> 4) & 0xF);
     iff([lo[0], lo[1], lo[2], lo[3], hi[0], hi[1], hi[2], hi[3]])
 }
+
+// ---- SSE2 --------------------------------------------------------------------------------------------------------------
+/// MOVNTPS (aligned non-temporal store of 4 f32)
+pub unsafe fn m128_stream_ps(p: *mut f32, a: __m128) { assert!(p as usize % 16 == 0); *(p as *mut __m128) = a; }
+/// CMPLEPS: lane mask a[i] <= b[i] (false on NaN)
+pub unsafe fn m128_cmple_ps(a: __m128, b_: __m128) -> __m128 {
+    let (a, b_): ([f32; 4], [f32; 4]) = (std::mem::transmute(a), std::mem::transmute(b_));
+    let mut r = [0u32; 4];
+    let mut i = 0;
+    while i < 4 { r[i] = if a[i] <= b_[i] { 0xFFFF_FFFF } else { 0 }; i += 1; }
+    std::mem::transmute(r)
+}
